@@ -95,7 +95,10 @@ def gossip_plan(chk, tier):
         return {
             "mc": G.consts(MaxVer=3),
             "covers": [G.consts(Key={"k1"}, MaxVer=3, MaxSlots=1),
-                       G.consts(Key={"k1"}, MaxVer=2, Features={"leave", "lose", "expire"})],
+                       G.consts(Key={"k1"}, MaxVer=2, Features={"leave", "lose", "expire"}),
+                       # nodes that do not know each other yet: joining over the stream, leaving
+                       G.consts(Key={"k1"}, Val={"x"}, MaxVer=2, MaxSlots=1, InitKnown=False,
+                                Features={"join", "leave"}, Budgets={99})],
             "sim": (G.consts(Node={"a", "b", "c"}, Key={"k1", "k2"}, MaxVer=4, MaxSlots=3,
                              Writers={"a"}, Features={"leave", "compact", "lose", "expire", "dup"},
                              Budgets={2, 3, 99}), 160, 45),
@@ -105,7 +108,9 @@ def gossip_plan(chk, tier):
         "mc": G.consts(MaxVer=4),
         "mc2": G.consts(Node={"a", "b", "c"}, Key={"k1"}, Val={"", "x"}, MaxVer=3, MaxSlots=2,
                         Writers={"a"}, Features={"leave", "lose", "expire"}, Budgets={2, 99}),
-        "covers": [G.consts(Key={"k1"}, MaxVer=3)],
+        "covers": [G.consts(Key={"k1"}, MaxVer=3),
+                   G.consts(Node={"a", "b", "c"}, Key={"k1"}, Val={"x"}, MaxVer=2, MaxSlots=1, InitKnown=False,
+                            Features={"join", "leave"}, Budgets={99})],
         "sim": (G.consts(Node={"a", "b", "c"}, Key={"k1", "k2"}, MaxVer=5, MaxSlots=4,
                          Writers={"a", "c"}, Features={"leave", "compact", "lose", "expire", "dup", "shuffle"},
                          Budgets={2, 3, 4, 99}), 2400, 60),
@@ -221,7 +226,7 @@ def gossip_family(chk, mc_inv, mc_props, trace_inv, require_ops=(), module="Goss
         chk.nontrivial += st.get("steps", 0) - st.get("by_op", {}).get("Reset", 0)
 
     def sched_base(nodes):
-        b = {"nodes": nodes, "initKnown": True}
+        b = {"nodes": nodes, "initKnown": True, "streams": True}
         if routing:
             b.update({"routing": True, "endpoints": ["e1", "e2"]})
         return b
@@ -238,7 +243,8 @@ def gossip_family(chk, mc_inv, mc_props, trace_inv, require_ops=(), module="Goss
         beh, info = G.gen_cover(chk, "%s-cover%d" % (label, i), cc, module=module, spec=spec, view="ViewCover")
         covers.append(info)
         chk.exhaustive = chk.exhaustive and info["uncovered_edges"] == 0
-        v, st = run_schedules(chk, dict(sched_base(nodes), behaviours=beh, maxSlots=cc["MaxSlots"]),
+        v, st = run_schedules(chk, dict(sched_base(nodes), behaviours=beh, maxSlots=cc["MaxSlots"],
+                                        initKnown=cc.get("InitKnown", True)),
                               "cover%d" % i, nodes, invariants=trace_inv, module=tmodule)
         account(st)
     chk.notes["covers"] = covers
